@@ -374,6 +374,16 @@ fn scenario(seed: u64, case: u64, out: &mut Vec<String>) {
     // a hand-built family straight into the encoder
     let fam = custom_family(&mut rng, "handbuilt", &fpool);
     emit("hand-built", &[fam]);
+    // a family whose type was never set: both models must fall back to the same default
+    let mut untouched = MetricFamily::default();
+    untouched.set_name("default_typed".to_string());
+    untouched.set_help("h".to_string());
+    let mut m = proto::Metric::default();
+    let mut c = proto::Counter::default();
+    c.set_value(pools::any_f64(&mut rng, &fpool));
+    m.set_counter(c);
+    untouched.set_metric(vec![m]);
+    emit("default-typed", &[untouched]);
 }
 
 fn main() {
